@@ -3071,12 +3071,13 @@ bn_mod(bn_p bn, bn_p m, bn_mod_rd_data_p mod_rd_data) {
 /* Computes: bn = (bn + n) mod m. */
 static inline int
 bn_mod_add(bn_p bn, bn_p n, bn_p m, bn_mod_rd_data_p mod_rd_data __unused) {
+	bn_digit_t crr = 0;
 
 	BN_POINTER_CHK_EINVAL(bn);
 	BN_POINTER_CHK_EINVAL(n);
 	BN_POINTER_CHK_EINVAL(m);
-	BN_RET_ON_ERR(bn_add(bn, n, NULL));
-	if (bn_cmp(bn, m) >= 0) { /* bn >= m */
+	BN_RET_ON_ERR(bn_add(bn, n, &crr));
+	if (0 != crr || bn_cmp(bn, m) >= 0) { /* bn >= m (the lost 2^capacity cancels in the subtraction) */
 		BN_RET_ON_ERR(bn_sub(bn, m, NULL));
 	}
 	//BN_RET_ON_ERR(bn_mod(bn, m, mod_rd_data));
